@@ -178,10 +178,12 @@ def xlsb_resolve_xti(first, sheets):
     return "#Unknown"
 
 
-def xlsb_cell_record(c, kind, rgce, rng, value=None):
-    """one cell record; kind: fnum fstr fbool ferr (formula cells), num str bool err blank"""
+def xlsb_cell_record(c, kind, rgce, rng, value=None, rgcb=b""):
+    """one cell record; kind: fnum fstr fbool ferr (formula cells), num str bool err blank;
+    rgcb: the extra data of the CellParsedFormula (cb = its size)"""
     head = struct.pack("<I", c) + struct.pack("<I", rng.choice([0, 0, 1, 5]) | (rng.choice([0, 0, 0x01]) << 24))
-    tail = lambda: struct.pack("<H", rng.choice([0, 0, 2, 0x0A])) + struct.pack("<I", len(rgce)) + rgce + struct.pack("<I", 0)
+    tail = lambda: (struct.pack("<H", rng.choice([0, 0, 2, 0x0A])) + struct.pack("<I", len(rgce)) + rgce +
+                    struct.pack("<I", len(rgcb)) + rgcb)
     if kind == "fnum":
         return brec(0x0009, head + struct.pack("<d", rng.choice([0.0, 1.5, -2.0, 1e10])) + tail())
     if kind == "fstr":
@@ -202,10 +204,66 @@ def xlsb_cell_record(c, kind, rgce, rng, value=None):
     return brec(0x0001, head)
 
 
-def xlsb_sheet_part(cells, rng):
-    """cells: list of (row, col, kind, rgce) sorted by (row, col)"""
+def xlsb_ptgexp(first):
+    """(rgce, rgcb) of a cell of a shared / array formula: PtgExp with the row of the group's first
+    cell in the token and its column in rgcb (PtgExtraCol), MS-XLSB 2.5.97.46 / 2.5.97.16"""
+    return b"\x01" + struct.pack("<I", first[0]), struct.pack("<I", first[1])
+
+
+def brt_shrfmla_payload(r0, r1, c0, c1, rgce, tail=None):
+    """BrtShrFmla 0x01AB: rfx (UncheckedRfX: rwFirst, rwLast, colFirst, colLast, u32 each), then
+    SharedParsedFormula (cce u32 + rgce [+ cb])"""
+    return struct.pack("<IIII", r0, r1, c0, c1) + struct.pack("<I", len(rgce)) + rgce + (struct.pack("<I", 0) if tail is None else tail)
+
+
+def brt_arrfmla_payload(r0, r1, c0, c1, rgce, flags=0, tail=None):
+    """BrtArrFmla 0x01AA: rfx, one byte (fAlwaysCalc), ArrayParsedFormula (cce u32 + rgce + cb + rgcb)"""
+    return (struct.pack("<IIII", r0, r1, c0, c1) + bytes([flags]) + struct.pack("<I", len(rgce)) + rgce +
+            (struct.pack("<I", 0) if tail is None else tail))
+
+
+def shared_ref_text_b(p, corner):
+    """independent reading of MS-XLSB PtgRefN / RgceLocRel for a cell p = (row, col) using a shared formula:
+    corner = (row_rel, d_or_row, col_rel, d_or_col) with SIGNED offsets; rows wrap around 1048576, columns 16384"""
+    rr, r, cr, c = corner
+    row = (p[0] + r) % 1048576 if rr else r
+    col = (p[1] + c) % 16384 if cr else c
+    return ("" if cr else "$") + col_letters(col) + ("" if rr else "$") + str(row + 1)
+
+
+def xlsb_table_records(cells, rng):
+    """the records between BrtBeginSheetData and BrtEndSheetData as (type, payload).
+    cells: (row, col, kind, rgce[, rgcb[, after]]) sorted by (row, col); after: records that follow the cell
+    (BrtShrFmla / BrtArrFmla, anything else); a legacy "ptgexp" cell is (row, col, kind, b"\x01" + row) without
+    rgcb: it names no cell (no column) and is followed, 7 times out of 10, by a BrtShrFmla nobody can use"""
     rows = sorted(set(x[0] for x in cells))
-    if cells:
+    out = []
+    for r in rows:
+        out.append((0x0000, struct.pack("<IIHBBBI", r, 0, 300, 0, 0, 0, 0)))
+        for x in cells:
+            (rr, c, kind, rgce), more = x[:4], x[4:]
+            if rr != r:
+                continue
+            rgcb = more[0] if more else b""
+            raw = xlsb_cell_record(c, kind, rgce, rng, rgcb=rgcb)
+            t, i = raw[0], 1
+            while raw[i] & 0x80:
+                i += 1
+            out.append((t, raw[i + 1:]))
+            if len(more) > 1:
+                out += list(more[1])
+            elif kind.startswith("f") and rgce[:1] == b"\x01" and not rgcb and rng.random() < 0.7:
+                out.append((0x01AB, struct.pack("<IIII", r, r, c, c) + struct.pack("<I", 3) + b"\x1e\x07\x00" + struct.pack("<I", 0)))
+    return out
+
+
+def xlsb_sheet_part(cells, rng, table=None, dim=None):
+    """cells: list of (row, col, kind, rgce[, rgcb[, after]]) sorted by (row, col); table: the records of
+    the cell table when they were built by the caller (xlsb_table_records)"""
+    rows = sorted(set(x[0] for x in cells))
+    if dim is not None:
+        dim = struct.pack("<IIII", *dim)
+    elif cells:
         dim = struct.pack("<IIII", rows[0], rows[-1], min(x[1] for x in cells), max(x[1] for x in cells))
     else:
         dim = struct.pack("<IIII", 0, 0, 0, 0)
@@ -218,14 +276,8 @@ def xlsb_sheet_part(cells, rng):
     if rng.random() < 0.4:
         out += brec(0x01E5, struct.pack("<IHHI", 0xFFFFFFFF, 8, 300, 0))   # BrtWsFmtInfo
     out += brec(0x0091)
-    for r in rows:
-        out += brec(0x0000, struct.pack("<IIHBBBI", r, 0, 300, 0, 0, 0, 0))
-        for (rr, c, kind, rgce) in cells:
-            if rr == r:
-                out += xlsb_cell_record(c, kind, rgce, rng)
-                if kind.startswith("f") and rgce[:1] == b"\x01" and rng.random() < 0.7:
-                    # BrtShrFmla after the first cell of a shared group: ignored by the reader
-                    out += brec(0x01AB, struct.pack("<IIII", r, r, c, c) + struct.pack("<I", 3) + b"\x1e\x07\x00" + struct.pack("<I", 0))
+    for (t, p) in (xlsb_table_records(cells, rng) if table is None else table):
+        out += brec(t, p)
     out += brec(0x0092) + brec(0x0082)
     return out
 
@@ -269,7 +321,8 @@ def xlsb_workbook_part(sheets, tail, rng, states=None):
     return wb
 
 
-def xlsb_bytes(sheets, sheet_cells, tail, rng, states=None):
+def xlsb_bytes(sheets, sheet_cells, tail, rng, states=None, tables=None):
+    """tables: per sheet, the records of the cell table when the caller built them (else None)"""
     n = len(sheets)
     rels = [DECL, '<Relationships xmlns="%s">' % NS_PR]
     for i in range(n):
@@ -283,7 +336,8 @@ def xlsb_bytes(sheets, sheet_cells, tail, rng, states=None):
              ("xl/workbook.bin", xlsb_workbook_part(sheets, tail, rng, states)),
              ("xl/_rels/workbook.bin.rels", "".join(rels))]
     for i in range(n):
-        parts.append(("xl/worksheets/sheet%d.bin" % (i + 1), xlsb_sheet_part(sheet_cells[i], rng)))
+        parts.append(("xl/worksheets/sheet%d.bin" % (i + 1),
+                      xlsb_sheet_part(sheet_cells[i], rng, table=tables[i] if tables else None)))
     return zip_pack(rng, parts)
 
 
